@@ -5,6 +5,7 @@ import (
 	"go/ast"
 	"go/token"
 	"go/types"
+	"reflect"
 	"sort"
 	"strings"
 
@@ -21,110 +22,57 @@ func (c *Ctx) codecEngine() {
 	}
 	c.wholeCellValues(R)
 	c.maybeBits(R)
-	// (a) kind -> width on both sides
+	// (a) kind -> width on both sides. Decided by partial evaluation (E18): with every reflect.Value.Kind()
+	// call assumed to return kind K, the cell reads/writes that become reachable only for K (not for the
+	// invalid kind) are exactly one Read/Write{Int,Uint} of the constant width TL-B prescribes. The
+	// dispatch may be a switch, an if-chain or a helper mapping the kind to a width.
 	kindWidth := func(fname string) map[string]string {
 		out := map[string]string{}
-		var fd *ast.FuncDecl
-		for _, f := range p.Syntax {
-			for _, d := range f.Decls {
-				if x, ok := d.(*ast.FuncDecl); ok && x.Name.Name == fname && x.Recv == nil {
-					fd = x
-				}
-			}
-		}
-		if fd == nil {
+		f := c.fn("tlb", fname)
+		if f == nil {
 			return out
 		}
-		ast.Inspect(fd.Body, func(n ast.Node) bool {
-			cl, ok := n.(*ast.CaseClause)
-			if !ok {
-				return true
-			}
-			var kinds []string
-			for _, e := range cl.List {
-				if sel, ok := e.(*ast.SelectorExpr); ok {
-					if id, ok := sel.X.(*ast.Ident); ok && id.Name == "reflect" {
-						kinds = append(kinds, sel.Sel.Name)
+		evalKind := func(k int64) map[*ssa.Call]string {
+			pe := &peval{c: c, assume: func(cc *ssa.CallCommon) (int64, bool) {
+				if callQName(cc) == "reflect.Value.Kind" {
+					return k, true
+				}
+				return 0, false
+			}}
+			res := pe.run(f, nil)
+			got := map[*ssa.Call]string{}
+			res.reachableCalls(func(owner *pevalResult, cl *ssa.Call) {
+				q := callQName(&cl.Call)
+				if !strings.HasPrefix(q, bocPath+".Cell.") {
+					return
+				}
+				m := strings.TrimPrefix(q, bocPath+".Cell.")
+				switch m {
+				case "WriteUint", "WriteInt", "ReadUint", "ReadInt":
+					w := "?"
+					if v, ok := owner.val(cl.Call.Args[len(cl.Call.Args)-1]); ok {
+						w = fmt.Sprint(v)
 					}
-				}
-			}
-			if len(kinds) == 0 {
-				return true
-			}
-			// direct: c.WriteUint(x, N) / c.WriteInt(x, N)
-			direct := ""
-			fn := ""
-			ast.Inspect(cl, func(m ast.Node) bool {
-				call, ok := m.(*ast.CallExpr)
-				if !ok {
-					return true
-				}
-				sel, ok := call.Fun.(*ast.SelectorExpr)
-				if !ok {
-					return true
-				}
-				switch sel.Sel.Name {
-				case "WriteUint", "WriteInt":
-					if lit, ok := call.Args[len(call.Args)-1].(*ast.BasicLit); ok {
-						direct, fn = lit.Value, sel.Sel.Name
-					}
-				case "ReadUint", "ReadInt":
-					fn = sel.Sel.Name
+					got[cl] = strings.TrimPrefix(strings.TrimPrefix(m, "Write"), "Read") + " " + w
 				case "WriteBit", "ReadBit":
-					fn, direct = sel.Sel.Name, "1"
+					got[cl] = "Bit 1"
+				case "WriteBytes", "ReadBytes", "WriteBitString", "ReadBits", "ReadRemainingBits", "WriteBigUint", "ReadBigUint", "WriteBigInt", "ReadBigInt":
+					got[cl] = m
 				}
-				return true
 			})
-			if len(kinds) == 1 && direct != "" {
-				out[kinds[0]] = strings.TrimPrefix(strings.TrimPrefix(fn, "Write"), "Read") + " " + direct
-				return true
-			}
-			if len(kinds) > 1 && (fn == "ReadUint" || fn == "ReadInt") {
-				// l := 8; switch kind { case K: l = N }
-				def := ""
-				per := map[string]string{}
-				ast.Inspect(cl, func(m ast.Node) bool {
-					switch x := m.(type) {
-					case *ast.AssignStmt:
-						if len(x.Lhs) == 1 && len(x.Rhs) == 1 {
-							if id, ok := x.Lhs[0].(*ast.Ident); ok && id.Name == "l" {
-								if lit, ok := x.Rhs[0].(*ast.BasicLit); ok && x.Tok == token.DEFINE {
-									def = lit.Value
-								}
-							}
-						}
-					case *ast.CaseClause:
-						if x == cl {
-							return true
-						}
-						var ks []string
-						for _, e := range x.List {
-							if sel, ok := e.(*ast.SelectorExpr); ok {
-								ks = append(ks, sel.Sel.Name)
-							}
-						}
-						for _, st := range x.Body {
-							if as, ok := st.(*ast.AssignStmt); ok && len(as.Rhs) == 1 {
-								if lit, ok := as.Rhs[0].(*ast.BasicLit); ok {
-									for _, k := range ks {
-										per[k] = lit.Value
-									}
-								}
-							}
-						}
-					}
-					return true
-				})
-				for _, k := range kinds {
-					w := per[k]
-					if w == "" {
-						w = def
-					}
-					out[k] = strings.TrimPrefix(fn, "Read") + " " + w
+			return got
+		}
+		base := evalKind(int64(reflect.Invalid))
+		for name, k := range map[string]reflect.Kind{"Uint8": reflect.Uint8, "Uint16": reflect.Uint16, "Uint32": reflect.Uint32, "Uint64": reflect.Uint64, "Int8": reflect.Int8, "Int16": reflect.Int16, "Int32": reflect.Int32, "Int64": reflect.Int64, "Bool": reflect.Bool} {
+			var specific []string
+			for cl, d := range evalKind(int64(k)) {
+				if _, ok := base[cl]; !ok {
+					specific = append(specific, d)
 				}
 			}
-			return true
-		})
+			sort.Strings(specific)
+			out[name] = strings.Join(specific, " + ")
+		}
 		return out
 	}
 	want := map[string]string{"Uint8": "Uint 8", "Uint16": "Uint 16", "Uint32": "Uint 32", "Uint64": "Uint 64", "Int8": "Int 8", "Int16": "Int 16", "Int32": "Int 32", "Int64": "Int 64", "Bool": "Bit 1"}
@@ -135,7 +83,7 @@ func (c *Ctx) codecEngine() {
 	}
 	sort.Strings(ks)
 	for _, k := range ks {
-		c.check(enc[k] == want[k] && dec[k] == want[k], R, "reflect."+k+" width on both sides", token.NoPos, "encode and decode use "+want[k],
+		c.check(enc[k] == want[k] && dec[k] == want[k], R, "reflect."+k+" width on both sides", token.NoPos, "encode and decode use "+want[k]+" (partial evaluation of both functions for this kind)",
 			fmt.Sprintf("reflect.%s: encode uses %q, decode uses %q, TL-B needs %q on both sides", k, enc[k], dec[k], want[k]))
 	}
 	// (b) a field tag is consumed once: recursive calls of encode pass the empty tag
@@ -393,24 +341,49 @@ func (c *Ctx) maybeBits(rule string) {
 		return
 	}
 	n, okv := 0, true
+	zeros, ones := 0, 0
 	var bad []string
-	for _, cl := range callsTo(f, bocPath+".Cell.WriteBit") {
-		bit, ok := constBool(cl.Call.Args[1])
-		if !ok {
-			continue
-		}
-		for _, ft := range factsAt(f, cl.Block()) {
-			ic := callOf(ft.Cond)
-			if ic == nil || !strings.HasSuffix(callQName(&ic.Call), "tlb.isNil") {
+	// the presence bit may be written in tlb.encode itself or in a helper it calls (the shared prefix of the
+	// maybe and maybe^ cases extracted into one function)
+	for _, g := range c.helperClosure(f, 2, nil) {
+		for _, cl := range callsTo(g, bocPath+".Cell.WriteBit") {
+			bit, ok := constBool(cl.Call.Args[1])
+			if !ok {
+				// the bit computed from the test itself: WriteBit(!isNil(o)) is right, WriteBit(isNil(o)) inverted
+				a, neg := cl.Call.Args[1], false
+				if u, ok := a.(*ssa.UnOp); ok && u.Op == token.NOT {
+					a, neg = u.X, true
+				}
+				if ic := callOf(a); ic != nil && strings.HasSuffix(callQName(&ic.Call), "tlb.isNil") {
+					n++
+					if neg {
+						zeros++
+						ones++
+					} else {
+						okv = false
+						bad = append(bad, fmt.Sprintf("%s: writes isNil itself as the presence bit", c.rel(cl.Pos())))
+					}
+				}
 				continue
 			}
-			n++
-			if bit == ft.Truth { // nil (true) must write 0, present (false) must write 1
-				okv = false
-				bad = append(bad, fmt.Sprintf("%s: writes %v where isNil is %v", c.rel(cl.Pos()), bit, ft.Truth))
+			for _, ft := range factsAt(g, cl.Block()) {
+				ic := callOf(ft.Cond)
+				if ic == nil || !strings.HasSuffix(callQName(&ic.Call), "tlb.isNil") {
+					continue
+				}
+				n++
+				if bit {
+					ones++
+				} else {
+					zeros++
+				}
+				if bit == ft.Truth { // nil (true) must write 0, present (false) must write 1
+					okv = false
+					bad = append(bad, fmt.Sprintf("%s: writes %v where isNil is %v", c.rel(cl.Pos()), bit, ft.Truth))
+				}
+				break
 			}
-			break
 		}
 	}
-	c.check(okv && n >= 4, rule, "Maybe presence bit: nil -> 0, present -> 1", f.Pos(), fmt.Sprintf("%d constant presence bits behind the nil test", n), "tlb.encode writes a Maybe presence bit that contradicts the nil test it sits behind ("+strings.Join(bad, "; ")+"): a missing value is announced as present (the decoder then reads a value that is not there) or a present one as missing")
+	c.check(okv && zeros >= 1 && ones >= 1, rule, "Maybe presence bit: nil -> 0, present -> 1", f.Pos(), fmt.Sprintf("%d constant presence bits behind the nil test", n), "tlb.encode writes a Maybe presence bit that contradicts the nil test it sits behind ("+strings.Join(bad, "; ")+"): a missing value is announced as present (the decoder then reads a value that is not there) or a present one as missing")
 }
